@@ -542,3 +542,8 @@ CHECKS['C11']['level_text'] = CHECKS['C11']['level_text'] + (" ERROR => NOTHING 
     "for every store, key, argument vector and log time, a KV write (13 commands incl. SET options, SETEX, SETIFEQ, GETSET, INCRBY, APPEND, SETRANGE, EXPIRE, PERSIST), SADD / SREM, LPUSH / RPUSH / LPOP / RPOP / LSET / LTRIM and every "
     "sorted-set write (ZADD ZREM ZINCRBY ZREMRANGEBYRANK/SCORE/LEX ZCLEAR) that answers an error leaves the store exactly as it was (C11_kv_error_no_effect, C11_sadd/srem/lpush/lpop/lset/ltrim_error_no_effect, C11_zset_error_no_effect).")
 CHECKS['C11']['partial'] = [x for x in CHECKS['C11']['partial'] if not x.startswith('C11_error_no_effect')] + ['error => nothing changed is a theorem for the KV / set / list / zset models (Props/C11Models.lean); hash commands of the model have no error outcome; "nothing leaks into the next command" (the shared write batch) is oracle-only']
+
+# ---- C06/C03: the persist-before-publish rule as a theorem over the regenerated decision
+CHECKS['C06']['gens'] = CHECKS['C06']['gens'] + ['WalSync']
+CHECKS['C06']['level_text'] = CHECKS['C06']['level_text'] + (" PERSIST BEFORE PUBLISH: over the REGENERATED shouldWaitWALSync (node/raft.go) and the pinned statement order of processReady (early persist before publishEntries): "
+    "for every Ready of one log with non-decreasing terms, either the Ready is persisted before its committed entries are handed to the apply loop, or every committed entry lies strictly below the first unstable one (C06_publish_only_persisted).")
